@@ -6,6 +6,16 @@ ROOT = os.path.dirname(os.path.dirname(os.path.abspath(__file__)))
 
 # id -> (category, technique, level text, level note, design_ref)
 CHECKS = {
+  "C01": ("fault_enumeration",
+          "crash-point enumeration by property testing: crash images rebuilt from the real filesystem trace of FsStorage (cfg hook) under a stated persistence model, recovered and compared with the store model",
+          "Histories of 4-25 calls (add, delete, commit, rollback, drop writer, compact) run on the real FsStorage with the trace hook installed. For 24 (quick) / 200 (thorough) crash plans per history - a crash point biased to lie inside commit / compaction / rollback or right after a call returned, and a persistence choice (directory operations since the last directory fsync survive as a prefix; every file keeps a prefix of its un-fsynced writes with the next one torn at any byte; or nothing / everything survives) - the image is rebuilt from the trace, written to the same path and opened: open and search must succeed and the contents must equal the state after the last commit that returned, or the complete result of the commit in flight.",
+          "Trusted: the persistence model stated in the evidence's assumptions (ordered-metadata journaling; fsync(file) persists data and the file's own creation), harness/src/crash.rs, the store model. Hook: searchlite-core/src/verif.rs (FS event trace).",
+          "DESIGN.md §5 C01"),
+  "C02": ("fault_enumeration",
+          "multi-round crash/restart property testing on crash images rebuilt from the real filesystem trace, with a WAL queue model (prefix + sync watermark)",
+          "1-3 crash/restart rounds per case: each round runs 2-10 calls (biased to leave queued operations behind: adds/deletes followed by a writer drop, a commit attempt or nothing) under the trace hook, crashes at a generated point with a generated persistence choice (log tails torn at any byte) and restarts on the image; the next round continues on the recovered directory. Per restart the queue a new writer recovers (public WAL API) must be an in-order prefix of the operations queued at the crash that contains every operation followed by a successful log sync (writer drop by contract, commit attempt by its observed fsync), resp. be empty or complete for a commit already published; at the end a new writer's commit must equal the crash-free model for the recovered queue.",
+          "Trusted: as C01. A commit in flight whose result equals the state before it is judged leniently (published or not cannot be told apart).",
+          "DESIGN.md §5 C02"),
   "C03": ("fault_enumeration",
           "fault-injection property testing: a failing Storage wrapper (k-th storage-level call fails before / after / half-way) under generated histories, judged against the store model; single faults enumerated exhaustively in the thorough tier",
           "Histories of 3-14 calls (add, delete, commit, rollback, compact, new writer handle, reopen) run on a wrapper around the in-memory or filesystem storage that fails chosen storage-level calls (Storage trait methods and file-handle read/write/flush/seek/set_len/sync_all) before their effect, after it, or after half of a write. Quick: 14 fault plans per history (single faults, and double faults with the second 1-12 calls after the first); thorough: additionally every call index of the fault-free run x 3 modes for a quarter of the histories. Per faulted API call: Err => a new reader of the live index and a fresh open from storage both show the committed contents unchanged, and the same call retried on healthy storage succeeds; Ok => its effects are fully visible in both views; two faults inside one call => the index stays openable with one of the two complete states; at the end open + new writer + commit must give committed + queued operations.",
